@@ -286,8 +286,35 @@ def o8(tier):
     return ob.done(cases=len(paths) + n_sites)
 
 
+@guard
+def o9(tier):
+    """the protocol-version tag of a key-package event must be exactly "1.0" (MIP-00): no prefix / major-version / trimmed comparison"""
+    ob = Ob('O9', 'validate_protocol_version_tag accepts a tag only on a path whose condition contains the equality of the tag VALUE (element 1 of the tag) with the literal "1.0"; '
+                  'every other value ("1.1", "1", "1.0.1", "1.", " 1.0") is refused (tag of 0..2 elements symbolic, value an arbitrary string)', pure=C.PURE_MLS, loop_bound=6)
+    f = ob.fn(CORE, 'key_packages::validate_protocol_version_tag')
+    paths = ob.explore(f, [Opaque('self', '&MDK<Storage>'), Opaque('tag', '&nostr::Tag')])
+    n_ok = n_err = 0
+    for p in paths:
+        if p.kind == 'panic':
+            ob.require(False, 'O9/panic', p.msg, p); continue
+        if vname(p.ret) != 'Ok':
+            n_err += 1
+            continue
+        n_ok += 1
+        eqs = [str(c) for c in p.pc if str(c).startswith('eq(') and "str:'1.0'" in str(c)]
+        ob.require(bool(eqs), 'O9/version-not-compared-exactly',
+                   'a protocol-version tag is accepted on a path that never established value == "1.0" (path condition: ' + '; '.join(str(c)[:80] for c in p.pc[-3:]) + ')', p)
+        gets = [e for e in p.trace if ev_is(e, 'get')]
+        if gets and eqs:
+            ob.require(any(str(g.args[1]) == '1' for g in gets), 'O9/wrong-element', 'the element compared with "1.0" is not element 1 (the value) of the tag', p)
+    ob.require(n_ok >= 1 and n_err >= 2, 'O9/vacuity', f'{n_ok} accepting, {n_err} refusing paths')
+    ob.r.bounds = {'paths': 'all', 'tag elements': '0..2 (symbolic strings)'}
+    ob.r.vacuity.append(f'{len(paths)} paths, {n_ok} accepting, {n_err} refusing')
+    return ob.done(cases=len(paths))
+
+
 def run(tier, seed, only=None):
-    obs = [('O1', o1), ('O2', o2), ('O3', o3), ('O5', o5), ('O6', o6), ('O7', o7), ('O8', o8)] + ([('O4', o4)] if tier == 'thorough' else [])
+    obs = [('O1', o1), ('O2', o2), ('O3', o3), ('O5', o5), ('O6', o6), ('O7', o7), ('O8', o8), ('O9', o9)] + ([('O4', o4)] if tier == 'thorough' else [])
     out = []
     for k, f in obs:
         if only and k not in only:
